@@ -91,7 +91,7 @@ pub fn complete_path(word: &str, for_dir: bool) -> Vec<Completion> {
         (_path.clone(), _path_sep.clone())
     };
 
-    let (_, _dir_orig, _f) = split_pathname(&path, "");
+    let (_, _dir_orig, _f) = split_dir_file(&path, "");
     let dir_orig = if _dir_orig.is_empty() {
         String::new()
     } else {
@@ -103,7 +103,7 @@ pub fn complete_path(word: &str, for_dir: bool) -> Vec<Completion> {
     }
     utils::expand_env_string(&mut path_extended);
 
-    let (_, _dir_lookup, file_name) = split_pathname(&path_extended, "");
+    let (_, _dir_lookup, file_name) = split_dir_file(&path_extended, "");
     let dir_lookup = if _dir_lookup.is_empty() {
         ".".to_string()
     } else {
@@ -216,6 +216,12 @@ fn split_pathname(path: &str, prefix: &str) -> (String, String, String) {
         let prefix = format!("{}|", tokens[1]);
         return split_pathname(tokens[0], &prefix);
     }
+    split_dir_file(path, prefix)
+}
+
+/// Split a path (a word of the line with quotes and escapes already
+/// removed, so a `|` in it is part of a name) into directory and file part.
+fn split_dir_file(path: &str, prefix: &str) -> (String, String, String) {
     match path.rfind('/') {
         Some(pos) => (
             prefix.to_string(),
